@@ -604,6 +604,8 @@ impl<Store: StorageData> DbImpl<Store> {
     }
 
     pub(crate) fn insert_alias(&mut self, db_id: DbId, alias: &String) -> Result<(), DbError> {
+        Self::validate_alias(db_id, alias)?;
+
         if let Some(old_alias) = self.aliases.key(&self.storage, &db_id)? {
             self.undo_stack.push(Command::InsertAlias {
                 id: db_id,
@@ -683,6 +685,8 @@ impl<Store: StorageData> DbImpl<Store> {
     }
 
     pub(crate) fn insert_new_alias(&mut self, db_id: DbId, alias: &String) -> Result<(), DbError> {
+        Self::validate_alias(db_id, alias)?;
+
         if let Some(old_alias) = self.aliases.key(&self.storage, &db_id)? {
             self.undo_stack.push(Command::InsertAlias {
                 id: db_id,
@@ -1019,6 +1023,27 @@ impl<Store: StorageData> DbImpl<Store> {
     ) -> Result<Vec<DbKeyValue>, DbError> {
         self.values
             .values_by_keys(&self.storage, db_id.as_index(), keys)
+    }
+
+    fn validate_alias(db_id: DbId, alias: &str) -> Result<(), DbError> {
+        if alias.is_empty() {
+            return Err(DbError::query(
+                DbErrorType::NotAllowed,
+                "Empty alias is not allowed",
+            ));
+        }
+
+        if db_id.0 < 0 {
+            return Err(DbError::query(
+                DbErrorType::NotAllowed,
+                format!(
+                    "Aliases are only allowed for nodes - edge id '{}' found",
+                    db_id.0
+                ),
+            ));
+        }
+
+        Ok(())
     }
 
     fn graph_index(&self, id: i64) -> Result<GraphIndex, DbError> {
